@@ -445,9 +445,30 @@ def verdict(prop, tier, seed, pdef, results, extra, wall):
             lines.append('VIOLATION property=%s replay=%s%s' % (prop, rp['path'], '' if found else ' no-failing-input-found'))
             rc = 1
     if undecided and rc == 0:
-        rc = 2
-        for u in undecided:
-            lines.append('UNDECIDED property=%s %s' % (prop, u))
+        # bounded stand-in: the verifier could not ingest (part of) the current code. A bounded search on the REAL code may
+        # still refute the property with a concrete input; if it does not, the property stays undecided (exit 2, no alarm).
+        standin = None
+        if any(u.split(': ', 1)[-1].startswith(('extraction', 'verus rejected', 'canary extraction')) for u in undecided):
+            try:
+                import searcher
+                ssum, fi = searcher.search(prop, seed, tier, REPO)
+                standin = dict(summary=ssum, failing_input=fi)
+            except Exception as ex:
+                standin = dict(summary='searcher unavailable: %r' % (ex,), failing_input=None)
+        ev['coverage']['bounded_stand_in'] = standin
+        if standin and standin.get('failing_input'):
+            path = os.path.join(VERIF, 'replay', '%s-bounded-stand-in.json' % prop)
+            json.dump(dict(property_id=prop, obligation='bounded-stand-in (verifier undecided: %s)' % '; '.join(undecided)[:500],
+                           failed_obligations=[], failing_input=standin['failing_input'], searcher=standin['summary'],
+                           note='decided by the bounded stand-in on the real code, NOT by the verifier'), open(path, 'w'), indent=1)
+            ev['violations'] = 1
+            lines.append('VIOLATION property=%s replay=%s' % (prop, path))
+            lines.append('NOTE property=%s verifier undecided (%s); violation found by the bounded stand-in: %s' % (prop, undecided[0][:200], standin['failing_input']['disagreement'][:300]))
+            rc = 1
+        else:
+            rc = 2
+            for u in undecided:
+                lines.append('UNDECIDED property=%s %s' % (prop, u))
     ev['coverage']['undecided'] = undecided
     json.dump(ev, open(os.path.join(VERIF, 'evidence', prop + '.json'), 'w'), indent=1)
     for ln in lines:
